@@ -254,6 +254,23 @@ Optimizer::Match Optimizer::find_match(uint32_t src_track, uint32_t src_start)
 
 	auto& track_map = song->get_track_map();
 
+	// Prefix lengths of the source phrase that end outside of any nested loop. Only those
+	// can become a subroutine: a shorter prefix of a match may end inside a loop.
+	std::vector<bool> balanced(1, true);
+	{
+		Track& src = song->get_track(src_track);
+		int depth = 0;
+		for(unsigned int i = src_start; i < src.get_event_count() && depth >= 0; i++)
+		{
+			auto type = src.get_event(i).type;
+			if(type == Event::LOOP_START)
+				depth++;
+			else if(type == Event::LOOP_END)
+				depth--;
+			balanced.push_back(depth == 0);
+		}
+	}
+
 	for(auto && dst : track_map)
 	{
 		last_match.clear();
@@ -294,7 +311,7 @@ Optimizer::Match Optimizer::find_match(uint32_t src_track, uint32_t src_start)
 				// previous match with the same length
 				while(length > min_sub_score)
 				{
-					if(dst_pos - last_match[length] >= length)
+					if(length < balanced.size() && balanced[length] && dst_pos - last_match[length] >= length)
 					{
 						last_match[length] = dst_pos;
 						subroutine_count[length]++;
@@ -313,7 +330,8 @@ Optimizer::Match Optimizer::find_match(uint32_t src_track, uint32_t src_start)
 				{
 					// special case here since we don't have to worry about overlap for the first
 					// match and can't initialize the default element of the map
-					if(!last_match[length] || dst_pos - last_match[length] >= (length + 1))
+					if(length < balanced.size() && balanced[length]
+						&& (!last_match[length] || dst_pos - last_match[length] >= (length + 1)))
 					{
 						last_match[length] = dst_pos + 1;
 						subroutine_count[length]++;
